@@ -781,7 +781,12 @@ pub(crate) mod convert {
                     return Err(ConvertError::UnsupportedCfiInstruction);
                 }
                 read::CallFrameInstruction::AdvanceLoc { delta } => {
-                    *offset += delta * from_cie.code_alignment_factor() as u32;
+                    let delta = delta
+                        .checked_mul(from_cie.code_alignment_factor() as u32)
+                        .ok_or(ConvertError::UnsupportedCfiInstruction)?;
+                    *offset = offset
+                        .checked_add(delta)
+                        .ok_or(ConvertError::UnsupportedCfiInstruction)?;
                     return Ok(None);
                 }
                 read::CallFrameInstruction::DefCfa { register, offset } => {
@@ -791,7 +796,9 @@ pub(crate) mod convert {
                     register,
                     factored_offset,
                 } => {
-                    let offset = factored_offset * from_cie.data_alignment_factor();
+                    let offset = factored_offset
+                        .checked_mul(from_cie.data_alignment_factor())
+                        .ok_or(ConvertError::UnsupportedCfiInstruction)?;
                     CallFrameInstruction::Cfa(register, offset as i32)
                 }
                 read::CallFrameInstruction::DefCfaRegister { register } => {
@@ -802,7 +809,9 @@ pub(crate) mod convert {
                     CallFrameInstruction::CfaOffset(offset as i32)
                 }
                 read::CallFrameInstruction::DefCfaOffsetSf { factored_offset } => {
-                    let offset = factored_offset * from_cie.data_alignment_factor();
+                    let offset = factored_offset
+                        .checked_mul(from_cie.data_alignment_factor())
+                        .ok_or(ConvertError::UnsupportedCfiInstruction)?;
                     CallFrameInstruction::CfaOffset(offset as i32)
                 }
                 read::CallFrameInstruction::DefCfaExpression { expression } => {
@@ -819,28 +828,36 @@ pub(crate) mod convert {
                     register,
                     factored_offset,
                 } => {
-                    let offset = factored_offset as i64 * from_cie.data_alignment_factor();
+                    let offset = (factored_offset as i64)
+                        .checked_mul(from_cie.data_alignment_factor())
+                        .ok_or(ConvertError::UnsupportedCfiInstruction)?;
                     CallFrameInstruction::Offset(register, offset as i32)
                 }
                 read::CallFrameInstruction::OffsetExtendedSf {
                     register,
                     factored_offset,
                 } => {
-                    let offset = factored_offset * from_cie.data_alignment_factor();
+                    let offset = factored_offset
+                        .checked_mul(from_cie.data_alignment_factor())
+                        .ok_or(ConvertError::UnsupportedCfiInstruction)?;
                     CallFrameInstruction::Offset(register, offset as i32)
                 }
                 read::CallFrameInstruction::ValOffset {
                     register,
                     factored_offset,
                 } => {
-                    let offset = factored_offset as i64 * from_cie.data_alignment_factor();
+                    let offset = (factored_offset as i64)
+                        .checked_mul(from_cie.data_alignment_factor())
+                        .ok_or(ConvertError::UnsupportedCfiInstruction)?;
                     CallFrameInstruction::ValOffset(register, offset as i32)
                 }
                 read::CallFrameInstruction::ValOffsetSf {
                     register,
                     factored_offset,
                 } => {
-                    let offset = factored_offset * from_cie.data_alignment_factor();
+                    let offset = factored_offset
+                        .checked_mul(from_cie.data_alignment_factor())
+                        .ok_or(ConvertError::UnsupportedCfiInstruction)?;
                     CallFrameInstruction::ValOffset(register, offset as i32)
                 }
                 read::CallFrameInstruction::Register {
